@@ -29,6 +29,7 @@ Pairs the text model leaves unspecified (or holds to be passes that tdda
 fails - C04's business) are checked for everything except the content of the
 post-processed pair.
 """
+import itertools
 import os
 import re
 
@@ -62,6 +63,46 @@ POINTS_LONG = [TA.option_point(),
                TA.option_point(max_permutation_cases=2)]
 SLICE_Q = ['b', 'a', 'X a', 'a1']
 SLICE_T = ['b', 'a', 'X a', 'a1', 'a ']
+
+# --- E3 history layer: operations against ONE tmp_dir, never cleaned ---------
+# contents (actual lines, reference lines): long/medium/short, failing/passing
+HIST_CONTENTS = {
+    'long-fail': (['a', 'b', 'a1', 'a', 'a', 'b', 'a', 'a'],
+                  ['a', 'b', 'a22', 'a', 'z', 'b', 'a', 'y']),
+    'mid-fail': (['a', 'z', 'a1'], ['a', 'y', 'a22']),
+    'short-fail': (['a'], ['b']),
+    'short-pass': (['a'], ['a']),
+    'long-pass': (['a', 'b', 'a1', 'a', 'a', 'b', 'a', 'a'],
+                  ['a', 'b', 'a1', 'a', 'a', 'b', 'a', 'a']),
+}
+HIST_OPTIONS = {
+    'plain': TA.option_point(),
+    'pattern': TA.option_point(ignore_patterns=[r'\d+']),
+    'remove': TA.option_point(remove_lines=['b']),
+}
+HIST_JUNK = {'stale-long': 'stale line\n' * 60, 'stale-short': 'x'}
+
+
+def hist_ops(tier):
+    ops = []
+    for route in ('string', 'file'):
+        for refname in ('ref.txt', 'other.txt'):
+            for c in sorted(HIST_CONTENTS):
+                for o in sorted(HIST_OPTIONS):
+                    if o == 'remove' and tier != 'thorough':
+                        continue
+                    ops.append({'route': route, 'ref': refname,
+                                'content': c, 'options': o})
+    for c in ('long-fail', 'short-fail', 'short-pass'):
+        ops.append({'route': 'binary', 'ref': 'ref.txt', 'content': c,
+                    'options': 'plain'})
+    # files of the same names put there by someone else beforehand
+    for j in sorted(HIST_JUNK):
+        ops.append({'route': 'stale', 'ref': 'ref.txt', 'content': j,
+                    'options': 'plain'})
+    return ops
+
+
 
 CMD = re.compile(r'^(?P<head>[^\n]*)\n {4}(?P<cmd>diff|fc|cp|copy) '
                  r'(?P<a>\S+) (?P<b>\S+)[ ]*$', re.M)
@@ -152,7 +193,9 @@ class C15(Check):
             'of tails of length <= 2, or one byte changed inside the prefix '
             '(first, middle, last); long-text cases = 200/1000/5000 lines or '
             '3 lines of 5000/100000 characters with one of 9 named '
-            'deviations under 7 option points; missing-reference cases per entry '
+            'deviations under 7 option points; operation histories of length 2 (thorough 3) over 45 (thorough 65) '
+            'operations against one never-cleaned tmp_dir; '
+            'missing-reference cases per entry '
             'point.  Non-trivial = the case contains a failing assertion '
             '(artefact clauses exercised); for text cases additionally a '
             'passing one.')
@@ -187,6 +230,13 @@ class C15(Check):
                            'with a doubled one, with CRLF'))
         L.append(('long', 'many lines (200..5000) / long lines with one '
                           'named deviation'))
+        L.append(('history', 'E3: every sequence of 2 (thorough 3) '
+                             'operations against one never-cleaned tmp_dir '
+                             '(string / file / binary assertions over two '
+                             'reference basenames, long/short failing and '
+                             'passing contents, stale files), oracle on the '
+                             'last assertion + comparison with a fresh '
+                             'tmp_dir'))
         L.append(('seq3-slice', 'length 3 against length 2..3 over a 4-line '
                                 '(thorough 5-line) alphabet, remove_lines '
                                 'set (index mapping needs >= 3 lines)'))
@@ -224,6 +274,14 @@ class C15(Check):
                 for dev in TA.LONG_DEVIATIONS:
                     yield {'k': 'text', 'gen': [3, dev, width],
                            'pts': 'long-nopattern'}
+        elif layer == 'history':
+            depth = 3 if tier == 'thorough' else 2
+            every = hist_ops(tier)
+            for last in every:
+                if last['route'] == 'stale':
+                    continue
+                for prefix in itertools.product(every, repeat=depth - 1):
+                    yield {'k': 'hist', 'ops': list(prefix) + [last]}
         elif layer == 'missing':
             for s in TA.sequences(TA.LAMBDA, 2):
                 yield {'k': 'missing', 'a': s}
@@ -347,6 +405,8 @@ class C15(Check):
             return self.run_text(case)
         if case['k'] == 'bin':
             return self.run_binary(case)
+        if case['k'] == 'hist':
+            return self.run_history(case)
         return self.run_missing(case)
 
     # ----------------------------------------------------------------- text
@@ -653,6 +713,157 @@ class C15(Check):
                      'actual_tail_hex': case['a'],
                      'reference_tail_hex': case['e']}
         self.flush(R, bad, None, extra)
+        return R
+
+    # -------------------------------------------------------------- history
+    def hist_step(self, op):
+        """Prepare the caller's files for one operation and run it under
+        observation.  -> (rk, info, events, ta, act, ref, point)"""
+        box = self.box
+        if op['route'] == 'stale':
+            for name in ('actual-raw-ref.txt', 'actual-ref.txt',
+                         'expected-ref.txt'):
+                box.write(os.path.join(box.tmp, name),
+                          HIST_JUNK[op['content']])
+            return None
+        a, e = HIST_CONTENTS[op['content']]
+        ta, te = TA.content(a), TA.content(e)
+        p = HIST_OPTIONS[op['options']]
+        ref = os.path.join(box.ref, op['ref'])
+        # the actual file carries the reference's basename, so that string
+        # and file assertions compete for the same temporary names
+        act = os.path.join(box.act, op['ref'])
+        for path, text in ((ref, te), (act, ta)):
+            if os.path.exists(path):
+                os.remove(path)
+            box.write(path, text)
+        callers = (snapshot(box.ref), snapshot(box.act))
+        if op['route'] == 'binary':
+            rk, info, events, left = self.observed_call(
+                'assertBinaryFileCorrect', act, ref)
+        elif op['route'] == 'string':
+            rk, info, events, left = self.observed_call(
+                'assertStringCorrect', ta, ref, **TA.kwargs_of(p))
+        else:
+            rk, info, events, left = self.observed_call(
+                'assertTextFileCorrect', act, ref, **TA.kwargs_of(p))
+        self.callers_changed = callers != (snapshot(box.ref),
+                                           snapshot(box.act))
+        return rk, info, events, ta, te, act, ref, p
+
+    def artefacts(self, msg):
+        """{basename: bytes} of the files inside tmp_dir that msg names."""
+        box = self.box
+        out = {}
+        for c in parse_commands(msg):
+            for path in (c['a'], c['b']):
+                if inside(path, box.tmp):
+                    out[os.path.basename(path)] = box.read(path) \
+                        if os.path.isfile(path) else None
+        return out
+
+    def run_history(self, case):
+        R = Res()
+        box = self.box
+        ops = case['ops']
+        box.clean(box.ref, box.act, box.tmp)
+        trace = []
+        for op in ops[:-1]:
+            r = self.hist_step(op)
+            R.transitions += 1
+            trace.append('%s/%s/%s/%s:%s' % (
+                op['route'], op['ref'], op['content'], op['options'],
+                r[0] if r else 'placed'))
+        last = ops[-1]
+        before_tmp = snapshot(box.tmp)
+        sizes_before = dict((k, v[0]) for k, v in before_tmp.items())
+        rk, info, events, ta, te, act, ref, p = self.hist_step(last)
+        R.ev()
+        R.states = len(ops)
+        after_tmp = snapshot(box.tmp)
+        callers_changed = self.callers_changed
+        bad = {}
+        route = last['route']
+
+        def add(what, detail):
+            bad.setdefault(what, detail)
+
+        a, e = HIST_CONTENTS[last['content']]
+        must_fail = a != e if route == 'binary' else None
+        m = None
+        if route != 'binary':
+            m = TS.evaluate_texts(ta, te, model_opts(p))
+        if rk == 'error':
+            add('internal-error:%s' % type(info).__name__,
+                {'exception': repr(info)[:300]})
+        elif rk == 'pass':
+            writes = [ev for ev in events
+                      if ev[0] not in ('os.remove', 'os.unlink')]
+            made = [d for d in snapshot_diff(before_tmp, after_tmp)
+                    if d[0] != 'removed']
+            if writes or made:
+                add('passing-assertion-writes',
+                    {'events': writes[:6], 'tmp_dir_changes': made[:6]})
+            if must_fail:
+                add('binary-verdict:pass-for-different-files', {})
+        else:
+            cmds = self.common_clauses(rk, info, events, [], add)
+            if route == 'binary':
+                if must_fail is False:
+                    add('binary-verdict:fail-for-equal-files', {})
+            else:
+                self.text_failure_clauses(route, ta, act, ref, cmds, m, p,
+                                          add)
+        # ---- the same assertion in a fresh tmp_dir must say and leave the same
+        got_msg = info if rk == 'fail' else None
+        got_files = self.artefacts(got_msg) if rk == 'fail' else {}
+        box.clean(box.tmp)
+        r2 = self.hist_step(last)
+        R.transitions += 1
+        rk2, info2 = r2[0], r2[1]
+        # what the last assertion had to write over: compare the size of each
+        # pre-existing file with the size the fresh run gives that file
+        tag = 'fresh-names'
+        intended = self.artefacts(info2) if rk2 == 'fail' else {}
+        for name, data in intended.items():
+            if name in sizes_before and data is not None:
+                old = sizes_before[name]
+                t = 'over-longer-file' if old > len(data) else \
+                    'over-shorter-file' if old < len(data) else \
+                    'over-same-length-file'
+                if tag == 'fresh-names' or t == 'over-longer-file':
+                    tag = t
+        if rk2 != rk:
+            add('history-changes-verdict', {'in_history': rk, 'fresh': rk2})
+        elif rk == 'fail':
+            if info2 != got_msg:
+                add('history-changes-message',
+                    {'in_history': clip(got_msg, 600),
+                     'fresh': clip(info2, 600)})
+            fresh_files = intended
+            diff = sorted(k for k in set(got_files) | set(fresh_files)
+                          if got_files.get(k) != fresh_files.get(k))
+            if diff:
+                k = diff[0]
+                add('history-changes-artefact',
+                    {'file': k,
+                     'in_history': clip((got_files.get(k) or b'').decode(
+                         'utf-8', 'replace'), 600),
+                     'fresh': clip((fresh_files.get(k) or b'').decode(
+                         'utf-8', 'replace'), 600)})
+        if callers_changed:
+            add('caller-files-changed', {})
+        R.out('%s:%s:%s:%s' % (route, rk, tag, trace[-1].split(':')[-1]
+                               if trace else '-'))
+        R.nontrivial = rk == 'fail' and tag != 'fresh-names' or \
+            (rk == 'pass' and bool(before_tmp))
+        for what in sorted(bad):
+            d = dict(bad[what])
+            d['history'] = trace
+            d['last'] = last
+            R.viol('history:%s:%s:%s' % (what, tag, route),
+                   what.split(':')[0], d, sub={'what': what})
+        box.clean(box.tmp)
         return R
 
     # -------------------------------------------------------------- missing
